@@ -60,8 +60,8 @@ TIERS = {
               dict(Scope="q", MaxN2=2, MaxN1=2, MaxCalls=1, PerPoint=True)],
         jobs=[_job("sweep", "t", 2, 1, 1, False, "sweep", 2), _job("sweep_perpoint", "q", 2, 2, 1, True, "sweep", 2),
               _job("micro", "m", 3, 1, 1, False, "sweep", 2), _job("hist", "h", 2, 1, 2, True, "each", 2),
-              _job("hist3", "h", 1, 1, 3, True, "each", 1), _job("sim", "s", 6, 4, 4, True, "each", 2, num=6000)],
-        depths=ALL_DEPTHS, seeded=12000, seeded_n=24, seeded_variants=2, off=2500, off_n=150, trixel_budget=2e5),
+              _job("hist3", "h", 1, 1, 3, True, "each", 1), _job("sim", "s", 6, 4, 4, True, "each", 2, num=10000)],
+        depths=ALL_DEPTHS, seeded=20000, seeded_n=24, seeded_variants=2, off=4000, off_n=150, trixel_budget=2e5),
 }
 
 # octahedral symmetries of the rational sphere (exact: permute / negate coordinates)
